@@ -1,4 +1,4 @@
-// @unit id=v_streams props=C19,C17,C07,C08 tier=quick
+// @unit id=v_streams props=C19,C17,C07,C15,C08 tier=quick
 // Verus contracts on the REAL bodies of src/proto/streams/streams.rs `drop_stream_ref` and `maybe_cancel` (extracted on
 // every run): what happens when the application drops a handle on a stream (C19 "once the application has dropped its
 // handles the endpoint retains nothing", C17 implicit reset of a stream nobody listens to any more).
@@ -34,6 +34,19 @@ verus! {
 
 //@include stream_send.inc
 
+// `#[derive(PartialOrd)]` on `struct StreamId(u32)` (R5: written out)
+impl PartialOrdSpecImpl for StreamId {
+    open spec fn obeys_partial_cmp_spec() -> bool { true }
+    open spec fn partial_cmp_spec(&self, other: &StreamId) -> Option<core::cmp::Ordering> {
+        if self.0 < other.0 { Some(core::cmp::Ordering::Less) }
+        else if self.0 == other.0 { Some(core::cmp::Ordering::Equal) }
+        else { Some(core::cmp::Ordering::Greater) }
+    }
+}
+impl PartialOrd for StreamId {
+    fn partial_cmp(&self, other: &StreamId) -> Option<core::cmp::Ordering> { self.0.partial_cmp(&other.0) }
+}
+
 #[derive(PartialEq, Eq, Structural, Clone, Copy, Debug)]
 pub enum PeerDyn { Client, Server }
 impl PeerDyn {
@@ -53,6 +66,48 @@ impl SStore {
     #[verifier::external_body]
     pub fn resolve(&mut self, key: Key) -> (s: Stream)
         ensures s == old(self).spec_get(key) && s.key == key && s.ref_count > 0 && final(self).held() == old(self).held() + 1,
+    { unimplemented!() }
+}
+
+impl SStore {
+    /// Store::for_each(|stream| ..) visits every stored stream exactly once (ASSUMED, see inc/prioritize.inc); the closure is
+    /// rewritten into `iter_begin(); loop { match iter_next() { Some(stream) => BODY, None => break } }`
+    #[verifier::external_body]
+    pub fn iter_begin(&mut self)
+        ensures final(self).held() == old(self).held(),
+    { unimplemented!() }
+
+    #[verifier::external_body]
+    pub fn iter_next(&mut self) -> (r: Option<Stream>)
+        ensures
+            match r {
+                Some(s) => s.id.0 != 0 && final(self).held() == old(self).held() + 1,
+                None => final(self).held() == old(self).held(),
+            },
+    { unimplemented!() }
+
+    /// a visited stream that the function leaves alone goes back EXACTLY as it was, and only if the rule says so:
+    /// C15 — streams at or below the peer's last-stream-id, and streams the peer initiated, run to completion
+    #[verifier::external_body]
+    pub fn put_back_untouched(&mut self, stream: Stream, s0: Ghost<Stream>, peer: Ghost<PeerDyn>, cut: Ghost<StreamId>)
+        requires stream == s0@, !(s0@.id.0 > cut@.0 && local_init(peer@, s0@.id)),
+        ensures final(self).held() == old(self).held() - 1,
+    { unimplemented!() }
+}
+
+impl Counts {
+    /// Counts::transition_after for a stream that the function had to FAIL: C15/C07 — it is failed with exactly `err`
+    /// (unless it had already ended, then its outcome stands), every waiter is woken, nothing is left queued for sending
+    #[verifier::external_body]
+    pub fn transition_after_failed(&mut self, stream: Stream, is_reset_counted: bool, store: &mut SStore, s0: Ghost<Stream>, err: Ghost<Error>, rule_says_fail: Ghost<bool>)
+        requires
+            rule_says_fail@,      // only a stream the rule selects may be failed (C15: at or below the cut-off, or peer-initiated => must survive)
+            stream.state.inner == s0@.state.after_teardown(err@),
+            stream.recv_task is None && stream.push_task is None && stream.send_task is None,
+            stream.pending_send@.len() == 0,
+        ensures
+            final(store).held() == old(store).held() - 1,
+            *final(self) == (Counts { transitions: Ghost(old(self).transitions@ + 1), ..*old(self) }),
     { unimplemented!() }
 }
 
@@ -91,8 +146,29 @@ impl Counts {
     { unimplemented!() }
 }
 
-pub struct Send { pub tag: u8 }
+pub struct Send { pub max_stream_id: StreamId, pub tag: u8 }
 impl Send {
+    /// Send::recv_go_away (verified in unit v_send)
+    #[verifier::external_body]
+    pub fn recv_go_away(&mut self, last_stream_id: StreamId) -> (r: Result<(), Error>)
+        ensures
+            last_stream_id.0 > old(self).max_stream_id.0 ==> r is Err && *final(self) == *old(self),
+            last_stream_id.0 <= old(self).max_stream_id.0 ==> r is Ok && final(self).max_stream_id == last_stream_id,
+    { unimplemented!() }
+
+    /// Send::handle_error (verified in unit v_send): everything unsent is dropped, capacity returned; the state (already
+    /// set by Recv::handle_error) is not touched
+    #[verifier::external_body]
+    pub fn handle_error(&mut self, buffer: &mut SendBuf, stream: &mut Stream, counts: &mut Counts)
+        ensures
+            final(self).max_stream_id == old(self).max_stream_id,
+            final(stream).state == old(stream).state && final(stream).id == old(stream).id && final(stream).key == old(stream).key
+                && final(stream).recv_task == old(stream).recv_task && final(stream).push_task == old(stream).push_task
+                && (final(stream).send_task is None || final(stream).send_task == old(stream).send_task),
+            final(stream).pending_send@.len() == 0,
+            *final(counts) == *old(counts),
+    { unimplemented!() }
+
     /// Send::schedule_implicit_reset (verified in unit v_send): a stream that is not closed gets a reset scheduled.
     #[verifier::external_body]
     pub fn schedule_implicit_reset(&mut self, stream: &mut Stream, reason: Reason, counts: &mut Counts, task: &mut Option<Waker>)
@@ -106,8 +182,49 @@ impl Send {
     { unimplemented!() }
 }
 
-pub struct Recv { pub tag: u8 }
+pub struct SendBuf { pub tag: u8 }
+
+/// frame::GoAway, reduced (debug data is carried into the error value, which is reduced as well: R5)
+pub struct GoAwayFrame { pub last_stream_id: StreamId, pub reason: Reason }
+impl GoAwayFrame {
+    pub fn last_stream_id(&self) -> (r: StreamId) ensures r == self.last_stream_id { self.last_stream_id }
+    pub fn reason(&self) -> (r: Reason) ensures r == self.reason { self.reason }
+}
+
+impl Error {
+    /// proto::Error::remote_go_away(debug_data, reason) — debug data not modelled (R5)
+    pub fn remote_go_away(reason: Reason) -> (r: Error)
+        ensures r == Error::GoAway(reason, Initiator::Remote),
+    { Error::GoAway(reason, Initiator::Remote) }
+}
+
+pub open spec fn local_init(peer: PeerDyn, id: StreamId) -> bool {
+    (peer == PeerDyn::Server) == (id.0 % 2 == 0)
+}
+
+impl PeerDyn {
+    /// peer::Dyn::is_local_init (asserts id != 0; ids in the store are never 0)
+    #[verifier::external_body]
+    pub fn is_local_init(&self, id: StreamId) -> (r: bool)
+        requires id.0 != 0,
+        ensures r == local_init(*self, id),
+    { unimplemented!() }
+}
+
+pub struct Recv { pub last_processed_id: StreamId, pub tag: u8 }
 impl Recv {
+    pub fn last_processed_id(&self) -> (r: StreamId) ensures r == self.last_processed_id { self.last_processed_id }
+
+    /// Recv::handle_error (verified in unit v_recv): the stream is failed with `err` unless it is already closed, and all
+    /// three waiters are woken
+    #[verifier::external_body]
+    pub fn handle_error(&mut self, err: &Error, stream: &mut Stream)
+        ensures
+            *final(self) == *old(self),
+            *final(stream) == (Stream { state: final(stream).state, send_task: None, recv_task: None, push_task: None, ..*old(stream) }),
+            final(stream).state.inner == old(stream).state.after_teardown(*err),
+    { unimplemented!() }
+
     #[verifier::external_body]
     pub fn enqueue_reset_expiration(&mut self, stream: &mut Stream, counts: &mut Counts)
         ensures final(stream).ref_count == old(stream).ref_count && final(stream).key == old(stream).key && final(stream).state == old(stream).state
@@ -123,7 +240,7 @@ impl Recv {
     { unimplemented!() }
 }
 
-pub struct Actions { pub recv: Recv, pub send: Send, pub task: Option<Waker> }
+pub struct Actions { pub recv: Recv, pub send: Send, pub task: Option<Waker>, pub conn_error: Option<Error> }
 
 pub struct SInner { pub counts: Counts, pub actions: Actions, pub store: SStore, pub refs: usize }
 
@@ -178,6 +295,55 @@ pub struct SInner { pub counts: Counts, pub actions: Actions, pub store: SStore,
 //@loop_opt 0     ensures
 //@loop_opt 0         ppp.ghost_len == 0,                          // C19: the WHOLE queue of unclaimed promises is drained
 //@end
+
+impl SInner {
+    // C15 (receiving GOAWAY) / C07: the peer's cut-off is recorded (an increase is a connection error and nothing is
+    // touched); every stream WE initiated above the cut-off fails with the peer's reason — exactly the peer's code, as a
+    // remote GOAWAY — and wakes its waiters; every other stream is left exactly as it is; the connection remembers the
+    // error for later API calls.  For ANY number of streams.
+    //@extract src/proto/streams/streams.rs Inner::recv_go_away
+    //@attr #[verifier::exec_allows_no_decreases_clause]
+    //@subst_re fn recv_go_away<B>\(\s*&mut self,\s*send_buffer: &SendBuffer<B>,\s*frame: &frame::GoAway,\s*\) -> Result<\(\), Error>=>fn recv_go_away(&mut self, send_buffer: &mut SendBuf, frame: &GoAwayFrame) -> Result<(), Error>
+    //@subst_re let actions = &mut self\.actions;\s*let counts = &mut self\.counts;\s*let mut send_buffer = send_buffer\.inner\.lock\(\)\.unwrap\(\);\s*let send_buffer = &mut \*send_buffer;=>
+    //@subst actions.send.recv_go_away(last_stream_id)?;=>self.actions.send.recv_go_away(last_stream_id)?;
+    //@subst Error::remote_go_away(frame.debug_data().clone(), frame.reason())=>Error::remote_go_away(frame.reason())
+    //@subst let peer = counts.peer();=>let peer = self.counts.peer();
+    //@subst_re self\.store\.for_each\(\|stream\| \{ ==>> self.store.iter_begin(); loop invariant self.store.held() == old(self).store.held(), self.actions.send.max_stream_id == last_stream_id, last_stream_id == frame.last_stream_id, err == Error::GoAway(frame.reason, Initiator::Remote), peer == self.counts.peer, self.counts.peer == old(self).counts.peer, self.actions.conn_error == old(self).actions.conn_error, { let mut stream = match self.store.iter_next() { Some(s) => s, None => { break; } }; let ghost s0 = stream; let ghost sel = s0.id.0 > last_stream_id.0 && local_init(peer, s0.id);
+    //@subst_re counts\.transition\(stream, \|counts, stream\| \{ ==>> { let is_pending_reset = stream.is_pending_reset_expiration();
+    //@subst actions.recv.handle_error(&err, &mut *stream);=>self.actions.recv.handle_error(&err, &mut stream);
+    //@subst actions.send.handle_error(send_buffer, stream, counts);=>self.actions.send.handle_error(send_buffer, &mut stream, &mut self.counts);
+    //@subst_re \}\)\s*\}\s*\}\);\s*actions\.conn_error = Some\(err\); ==>> self.counts.transition_after_failed(stream, is_pending_reset, &mut self.store, Ghost(s0), Ghost(err), Ghost(sel)); } } else { self.store.put_back_untouched(stream, Ghost(s0), Ghost(peer), Ghost(last_stream_id)); } } self.actions.conn_error = Some(err);
+    //@ret r
+    //@spec     ensures
+    //@spec         final(self).store.held() == old(self).store.held(),
+    //@spec         // the cut-off may only shrink: an increased last-stream-id is a connection error and NOTHING is failed
+    //@spec         frame.last_stream_id.0 > old(self).actions.send.max_stream_id.0 ==> r is Err && final(self).counts.transitions@ == old(self).counts.transitions@
+    //@spec             && final(self).actions.conn_error == old(self).actions.conn_error,
+    //@spec         frame.last_stream_id.0 <= old(self).actions.send.max_stream_id.0 ==> r is Ok && final(self).actions.send.max_stream_id == frame.last_stream_id
+    //@spec             // the connection's result reports the peer's code
+    //@spec             && final(self).actions.conn_error == Some(Error::GoAway(frame.reason, Initiator::Remote)),
+    //@end
+
+    // C07: when the connection fails, EVERY stream is failed with that error (finished ones keep their outcome), every
+    // waiter is woken, and the error is remembered.  For ANY number of streams.
+    //@extract src/proto/streams/streams.rs Inner::handle_error
+    //@attr #[verifier::exec_allows_no_decreases_clause]
+    //@subst_re fn handle_error<B>\(&mut self, send_buffer: &SendBuffer<B>, err: proto::Error\) -> StreamId=>fn handle_error(&mut self, send_buffer: &mut SendBuf, err: Error) -> StreamId
+    //@subst_re let actions = &mut self\.actions;\s*let counts = &mut self\.counts;\s*let mut send_buffer = send_buffer\.inner\.lock\(\)\.unwrap\(\);\s*let send_buffer = &mut \*send_buffer;=>
+    //@subst let last_processed_id = actions.recv.last_processed_id();=>let last_processed_id = self.actions.recv.last_processed_id();
+    //@subst_re self\.store\.for_each\(\|stream\| \{ ==>> self.store.iter_begin(); loop invariant self.store.held() == old(self).store.held(), self.actions.recv == old(self).actions.recv, self.actions.conn_error == old(self).actions.conn_error, { let mut stream = match self.store.iter_next() { Some(s) => s, None => { break; } }; let ghost s0 = stream;
+    //@subst_re counts\.transition\(stream, \|counts, stream\| \{ ==>> { let is_pending_reset = stream.is_pending_reset_expiration();
+    //@subst actions.recv.handle_error(&err, &mut *stream);=>self.actions.recv.handle_error(&err, &mut stream);
+    //@subst actions.send.handle_error(send_buffer, stream, counts);=>self.actions.send.handle_error(send_buffer, &mut stream, &mut self.counts);
+    //@subst_re \}\)\s*\}\);\s*actions\.conn_error = Some\(err\); ==>> self.counts.transition_after_failed(stream, is_pending_reset, &mut self.store, Ghost(s0), Ghost(err), Ghost(true)); } } self.actions.conn_error = Some(err);
+    //@ret r
+    //@spec     ensures
+    //@spec         final(self).store.held() == old(self).store.held(),
+    //@spec         final(self).actions.conn_error == Some(err),
+    //@spec         // C15: the id reported in our GOAWAY is the highest peer stream handed to the application
+    //@spec         r == old(self).actions.recv.last_processed_id,
+    //@end
+}
 
 proof fn vacuity_probe_streams()
     ensures false,
